@@ -21,7 +21,10 @@ def burst_script(rng, par=None, jcs=None, extra=None, trials=20):
     jcs = jcs or rng.choice([1, 1, 2])
     n = jcs + par + (extra if extra is not None else rng.range(1, 4))
     keys = cc.pick_keys(rng, n)
-    ld = [[(rng.choice([ne + 1, 3 * ne + 1, 5 * ne + 1, 5 * ne + 1]), 1, rng.choice([0, 0, 0, 7]))] for _ in range(n)]
+    ld = []
+    for _ in range(n):
+        err = rng.choice([0, 0, 0, 7])
+        ld.append([(rng.choice([ne + 1, 3 * ne + 1, 5 * ne + 1, 5 * ne + 1]), 0 if err and rng.chance(1, 2) else 1, err)])
     sc = cc.Script(ne, ee, par, jcs, keys, ld, trials=trials)
     used = set()
     t0 = rng.choice([0, 0, 4 * ne - 96, 3 * ne, 4 * ne + 16])
